@@ -121,35 +121,38 @@ pub fn run_binary(name: &str, cwd: &Path, files: &[PathBuf], extra: &[&str], out
     }
 }
 
-/// Split a CSV produced by the analysis binaries into (header line of columns, rows),
-/// skipping the two leading comment lines ("# name version", "# argv").
-pub fn csv_body(csv: &[u8]) -> Option<(String, Vec<Vec<String>>)> {
+/// Rows of a CSV produced by the analysis binaries, projected onto the named columns (in the
+/// given order). Leading comment lines ("# name version", "# argv", ...) are skipped, columns
+/// are located through the header line, and columns the caller does not name are ignored - so
+/// an added column or comment line is not mistaken for a violation. None if a named column is
+/// missing or a row has fewer fields than the header. A CSV without any row has no header line
+/// either (csv::Writer writes it with the first record): Some(empty).
+pub fn csv_rows(csv: &[u8], columns: &[&str]) -> Option<Vec<Vec<String>>> {
     let text = std::str::from_utf8(csv).ok()?;
-    let mut lines = text.lines();
-    let l1 = lines.next()?;
-    let l2 = lines.next()?;
-    if !l1.starts_with("# ") || !l2.starts_with("# ") {
-        return None;
+    let mut lines = text.lines().skip_while(|l| l.starts_with('#'));
+    let Some(header) = lines.next() else { return Some(vec![]) };
+    let names: Vec<&str> = header.split(',').collect();
+    let idx: Vec<usize> = columns.iter().map(|c| names.iter().position(|n| n == c)).collect::<Option<Vec<_>>>()?;
+    let mut rows = Vec::new();
+    for l in lines {
+        let f: Vec<&str> = l.split(',').collect();
+        if f.len() != names.len() {
+            return None;
+        }
+        rows.push(idx.iter().map(|&i| f[i].to_string()).collect());
     }
-    let header = match lines.next() {
-        Some(h) => h.to_string(),
-        // a CSV without any row has no header line either (csv::Writer writes it with the first record)
-        None => return Some((String::new(), vec![])),
-    };
-    let rows = lines.map(|l| l.split(',').map(|s| s.to_string()).collect()).collect();
-    Some((header, rows))
+    Some(rows)
 }
 
-/// Bytes of the CSV from line 3 on (line 2 echoes argv and legitimately differs).
+/// Bytes of the CSV after its leading comment lines (the second one echoes argv and
+/// legitimately differs between runs).
 pub fn csv_tail(csv: &[u8]) -> Vec<u8> {
-    let mut nl = 0;
-    for (i, &b) in csv.iter().enumerate() {
-        if b == b'\n' {
-            nl += 1;
-            if nl == 2 {
-                return csv[i + 1..].to_vec();
-            }
+    let mut pos = 0;
+    while pos < csv.len() && csv[pos] == b'#' {
+        match csv[pos..].iter().position(|&b| b == b'\n') {
+            Some(n) => pos += n + 1,
+            None => return Vec::new(),
         }
     }
-    Vec::new()
+    csv[pos..].to_vec()
 }
